@@ -14,7 +14,9 @@ def prop(pid, **kw):
 
 prop(
     "C19",
+    configs={"quick": ["rel", "dbg", "race"], "thorough": ["rel", "dbg", "race"]},
     batches={"quick": 4, "thorough": 4},
+    race_batches={"quick": 2, "thorough": 2},
     rule="complete domain: every (method 0..4095, class 0..3) pair through MessageType.Value and every 16-bit wire "
          "value through MessageType.ReadValue, each compared with a table built bit by bit from RFC 5389 figure 3; "
          "distinct = distinct (direction, wire value) points, all non-trivial",
@@ -129,7 +131,8 @@ prop(
 
 prop(
     "C07",
-    configs={"quick": ["rel", "dbg"], "thorough": ["rel", "dbg"]},
+    configs={"quick": ["rel", "dbg", "race"], "thorough": ["rel", "dbg", "race"]},
+    race_batches={"quick": 4, "thorough": 8},
     timeout={"quick": 300, "thorough": 3000},
     rule="complete grid of 18 getters/checkers x value length 0..40 x position (first/middle/last) x capacity (exact, +1,+2,+7,+20,+64), "
          "each cell repeated with fresh random content (10 quick / 100 thorough): twin messages sharing only the attribute value (plus "
@@ -233,6 +236,7 @@ prop(
 
 prop(
     "C20",
+    configs={"quick": ["rel", "dbg"], "thorough": ["rel", "dbg"]},
     batches={"quick": 16, "thorough": 16},
     timeout={"quick": 400, "thorough": 3000},
     heapmax=0,
@@ -252,7 +256,9 @@ prop(
 
 prop(
     "C16",
-    timeout={"quick": 300, "thorough": 3000},
+    configs={"quick": ["rel", "race"], "thorough": ["rel", "race"]},
+    race_batches={"quick": 4, "thorough": 8},
+    timeout={"quick": 150, "thorough": 3000},
     maxstack=1 << 20,
     heapmax=1 << 30,
     confirm_timeout=60,
